@@ -10,10 +10,16 @@ for pid in ids:
     p = f"{root}/manifest_parts/{pid}.json"
     if os.path.exists(p):
         checks.append(json.load(open(p)))
+targets = []
+for c in checks:
+    for t in c.pop("lean_targets", []):
+        if t not in targets:
+            targets.append(t)
 claimed = {c["property_id"] for c in checks}
 na = [{"property_id": pid, "reason": base["na_reasons"].get(pid, base["na_default"])}
       for pid in ids if pid not in claimed]
-m = {"version": 1, "setup_cmd": base["setup_cmd"], "hooks": base["hooks"], "engines": base["engines"],
+setup = "cd lean && lake build " + " ".join(targets) if targets else base["setup_cmd"]
+m = {"version": 1, "setup_cmd": setup, "hooks": base["hooks"], "engines": base["engines"],
      "checks": checks, "not_applicable": na, "notes": base["notes"]}
 json.dump(m, open(f"{root}/MANIFEST.json", "w"), indent=1)
 print("claimed:", sorted(claimed), "not_applicable:", [x["property_id"] for x in na])
